@@ -2,7 +2,7 @@
 From Coq Require Import List NArith ZArith Bool.
 From Muscle Require Import Gen.Consts Refl.Base Refl.BaseProofs Refl.Tree Refl.Matcher Refl.Session Refl.Server Refl.ServerProofs
      Refl.IsoModel Refl.IsoBase Refl.IsoFrame Refl.IsoProofs Refl.IsoTold Refl.IsoDetach Refl.IsoRun Refl.IsoClean
-     Refl.IsoSimBase Refl.IsoSim Refl.IsoHosts Refl.IsoNever Refl.IsoHonest Refl.IsoQuiet Refl.IsoExamples.
+     Refl.IsoSimBase Refl.IsoSim Refl.IsoHosts Refl.IsoNever Refl.IsoKick Refl.IsoAsIf Refl.IsoCut Refl.IsoHonest Refl.IsoQuiet Refl.IsoExamples.
 Import ListNotations.
 
 (* A client cannot give itself privileges. *)
@@ -115,31 +115,32 @@ Proof.
     + intros H. discriminate.
 Qed.
 
-(* AS IF NEVER.  For every history evs in which nobody is granted PR_PRIVILEGE_KICK (arrivals under fresh (host, id) pairs,
-   fewer than 2^31-1 subscription strings added) and every session id s: let s's connection end after evs, and compare with
+(* AS IF NEVER.  For every session id s and every history evs in which s is never granted PR_PRIVILEGE_KICK -- OTHER sessions
+   may hold it, and may kick anybody, s included, alone or inside batches -- (arrivals under fresh (host, id) pairs and fresh
+   names, see xnm_event; fewer than 2^31-1 subscription strings added): let s's connection end after evs, and compare with
    the run of the history from which everything s did -- arriving, every command, leaving -- has been erased.  Below host
    level the two trees are the same list of nodes (paths, payloads, order = child iteration order, subscriber tables); the
    sessions are the same in the same order with the same identity, subscriptions and update limits; the privilege tables are
    the same; nobody is marked for removal.  What the other sessions were SENT meanwhile is not compared ("up to outputs
    already delivered").
-   Partial with respect to the property text in one respect only: histories in which some session holds the kick privilege
-   are excluded (a privileged kick is a visible effect by design; with it the order in which several kicked sessions are
-   removed enters).  Host nodes: next theorem. *)
-Theorem C06_as_if_never_partial : forall (M : MatchOps) (L : MatchLaws M) (fx : fixes), fx_guard fx = true ->
+   The kick traversal is the one of NodePathMatcher::DoTraversal with a callback that returns NODE_DEPTH_SESSIONNAME (Refl/
+   TraverseExit.v); the two runs may visit the host nodes, and so mark the sessions, in a different order: removals of
+   different sessions commute on everything compared here (Refl/IsoKick.v).  Host nodes: next theorem. *)
+Theorem C06_as_if_never : forall (M : MatchOps) (L : MatchLaws M) (fx : fixes), fx_guard fx = true ->
   forall (s : sid) evs,
-  small (xrun_budget evs) -> xwf_run fx empty_xserver evs -> Forall ev_nokick evs ->
+  small (xrun_budget evs) -> xwf_run fx empty_xserver evs -> xnm_run fx empty_xserver evs -> Forall (ev_nokick s) evs ->
   let XF := xstep fx (xrun fx evs empty_xserver) (XDetach s) in
   let XE := xrun fx (erase s evs) empty_xserver in
   body (sv_tree (xs_sv XF)) = body (sv_tree (xs_sv XE)) /\
   all_params (xs_sv XF) = all_params (xs_sv XE) /\
   xs_priv XF = xs_priv XE /\ xs_ducks XF = [] /\ xs_ducks XE = [].
 Proof. exact @as_if_never. Qed.
-Print Assumptions C06_as_if_never_partial.
+Print Assumptions C06_as_if_never.
 
 (* ... and the host nodes: the same hosts exist, with the same payload and the same subscriber count for every session *)
 Theorem C06_as_if_never_hosts : forall (M : MatchOps) (L : MatchLaws M) (fx : fixes), fx_guard fx = true ->
   forall (s : sid) evs,
-  small (xrun_budget evs) -> xwf_run fx empty_xserver evs -> Forall ev_nokick evs ->
+  small (xrun_budget evs) -> xwf_run fx empty_xserver evs -> xnm_run fx empty_xserver evs -> Forall (ev_nokick s) evs ->
   let XF := xstep fx (xrun fx evs empty_xserver) (XDetach s) in
   let XE := xrun fx (erase s evs) empty_xserver in
   forall h,
@@ -158,18 +159,69 @@ Theorem C06_reachable_hosts_ok : forall (M : MatchOps) (L : MatchLaws M) (fx : f
 Proof. exact @reachable_hosts_ok. Qed.
 Print Assumptions C06_reachable_hosts_ok.
 
-(* non-vacuity: a history without kick privilege in which session 11 really did something (three nodes, a refused kick,
-   a refused write into 10's subtree) and the others subscribed to its nodes; erasing 11 leaves a different history *)
+(* non-vacuity: a history in which session 11 really did something (three nodes, a refused kick, a refused write into 10's
+   subtree), the others subscribed to its nodes, and session 12, which holds PR_PRIVILEGE_KICK, kicks 11 and later 10;
+   erasing 11 leaves a different history, and both runs end with session 12 alone *)
 Example C06_as_if_never_premises_satisfiable :
-  small (xrun_budget ex_history2) /\ xwf_run all_fixed empty_xserver ex_history2 /\ Forall ev_nokick ex_history2 /\
-  length (erase 11%N ex_history2) = 4 /\
-  length (sv_tree (xs_sv (xrun all_fixed ex_history2 empty_xserver))) = 8 /\
-  length (sv_tree (xs_sv (xrun all_fixed (erase 11%N ex_history2) empty_xserver))) = 4.
+  small (xrun_budget ex_history3) /\ xwf_run all_fixed empty_xserver ex_history3 /\ xnm_run all_fixed empty_xserver ex_history3 /\
+  Forall (ev_nokick 11%N) ex_history3 /\
+  has_priv (xrun all_fixed ex_history3 empty_xserver) 12%N c_PR_PRIVILEGE_KICK = true /\
+  length (erase 11%N ex_history3) = 5 /\
+  length (sv_sessions (xs_sv (xrun all_fixed (firstn 5 ex_history3) empty_xserver))) = 3 /\
+  length (sv_sessions (xs_sv (xrun all_fixed (firstn 6 ex_history3) empty_xserver))) = 2 /\
+  length (sv_sessions (xs_sv (xrun all_fixed ex_history3 empty_xserver))) = 1 /\
+  length (sv_sessions (xs_sv (xrun all_fixed (erase 11%N ex_history3) empty_xserver))) = 1.
 Proof.
-  split; [vm_compute; reflexivity|]. split.
+  split; [vm_compute; reflexivity|]. split; [|split].
   - cbn. repeat split; intros ss Hin; cbn in Hin;
       repeat (destruct Hin as [Hin|Hin]; [subst ss; cbn; discriminate|]); destruct Hin.
-  - split; [repeat constructor|]. vm_compute. repeat split; reflexivity.
+  - cbn. repeat split; try discriminate;
+      repeat (match goal with H : _ \/ _ |- _ => destruct H as [H|H] | H : False |- _ => destruct H end); subst; cbn; discriminate.
+  - split; [repeat (constructor; [cbn; intros; first [exact I|discriminate|reflexivity]|]); constructor|]. vm_compute. repeat split; reflexivity.
+Qed.
+
+(* BYTE-LEVEL CUT (composition with C03, Gw/FrameDefault.v d_prefix_safety).  The client queues any Messages on its standard
+   binary gateway; DoOutput / DoInput calls with any maxBytes, any Write / Read results (zero- and one-byte ones included)
+   in any interleaving move the bytes; the server-side session hands every delivered Message (read by ANY function decode;
+   parsing is C01/C02's subject) to the dispatcher, interleaved with everything else the server does in ANY way (weave).
+   Whenever the connection ends -- after any byte of the stream -- the server is in the state it would be in had the client
+   sent exactly its first j Messages, for some j, and then closed the connection: a cut at a byte is a cut between two
+   complete commands, and detach_clean / as_if_never apply to it. *)
+Theorem C06_byte_cut_is_command_cut : forall (M : MatchOps) (fx : fixes) (decode : GwBase.bytes -> xcmd) (weave : list xevent -> list xevent)
+  s xs0 max_in (evs : list (GwBase.event GwBase.bytes)),
+  Forall (TransportProofs.ev_wf (FrameDefault.d_wfb max_in)) evs ->
+  exists j, j <= length (GwBase.ev_msgs evs) /\
+            cut_state fx decode weave s xs0 max_in evs =
+            xstep fx (xrun fx (weave (cmds_of decode s (firstn j (GwBase.ev_msgs evs)))) xs0) (XDetach s).
+Proof. exact @byte_cut_is_command_cut. Qed.
+Print Assumptions C06_byte_cut_is_command_cut.
+
+(* ... so the state after a cut at any byte is clean of s, for histories whose every command prefix is well-formed *)
+Theorem C06_byte_cut_clean : forall (M : MatchOps) (L : MatchLaws M) (fx : fixes), fx_guard fx = true ->
+  forall (decode : GwBase.bytes -> xcmd) (weave : list xevent -> list xevent) s max_in (evs : list (GwBase.event GwBase.bytes)),
+  Forall (TransportProofs.ev_wf (FrameDefault.d_wfb max_in)) evs ->
+  (forall j, small (xrun_budget (weave (cmds_of decode s (firstn j (GwBase.ev_msgs evs))))) /\
+             xwf_run fx empty_xserver (weave (cmds_of decode s (firstn j (GwBase.ev_msgs evs))))) ->
+  exists j, j <= length (GwBase.ev_msgs evs) /\
+    let before := xrun fx (weave (cmds_of decode s (firstn j (GwBase.ev_msgs evs)))) empty_xserver in
+    forall ss, get_session (xs_sv before) s = Some ss ->
+    left_clean before s ss (cut_state fx decode weave s empty_xserver max_in evs).
+Proof. exact @byte_cut_clean. Qed.
+Print Assumptions C06_byte_cut_clean.
+
+(* non-vacuity: a run in which the connection can end in the middle of a Message: two Messages queued, the first delivered
+   whole, 5 of the second one's 10 bytes (8 header + 2 body) in the receiver's buffer; a cut now is the cut after one command *)
+Example C06_byte_cut_premises_satisfiable :
+  let evs : list (GwBase.event GwBase.bytes) :=
+    [GwBase.EQueue [7%N; 7%N]; GwBase.EQueue [8%N; 8%N]; GwBase.EOut 100%N [10%N; 5%N]; GwBase.EIn 100%N [100%N; 100%N; 100%N; 100%N]] in
+  Forall (TransportProofs.ev_wf (FrameDefault.d_wfb 1000%N)) evs /\
+  GwBase.ev_msgs evs = [[7%N; 7%N]; [8%N; 8%N]] /\
+  GwBase.s_dlv (GwBase.sys_run FrameModel.fs_queue FrameModel.d_do_output (FrameModel.d_do_input 1000%N) (FrameDefault.d_sys0) evs) = [[7%N; 7%N]] /\
+  FrameModel.fr_buf (GwBase.s_rcv (GwBase.sys_run FrameModel.fs_queue FrameModel.d_do_output (FrameModel.d_do_input 1000%N) (FrameDefault.d_sys0) evs))
+    = Some (2048%N, [2%N; 0%N; 0%N; 0%N; 48%N]).
+Proof.
+  cbv zeta. split; [|split; [|split]; vm_compute; reflexivity].
+  repeat constructor; vm_compute; intros H; discriminate H.
 Qed.
 
 (* FORGED SESSION FIELDS.  Whatever what-code, keys and PR_NAME_SESSION string a session puts into a Message, in any state:
